@@ -81,7 +81,7 @@ def run(ctx):
     from maze_dataset.dataset.rasterized import RasterizedMazeDataset, RasterizedMazeDatasetConfig
     from maze_dataset.generation.generators import GENERATORS_MAP
 
-    n_h = 400 if ctx.quick else 10000
+    n_h = 1200 if ctx.quick else 10000
     for j in range(n_h):
         if not ctx.mine(j):
             continue
@@ -111,7 +111,7 @@ def run(ctx):
     # library-generated datasets, items and batches
     gens = [("gen_dfs", {}), ("gen_wilson", {}), ("gen_percolation", dict(p=0.5)), ("gen_dfs_percolation", dict(p=0.2)),
             ("gen_dfs", dict(accessible_cells=4)), ("gen_prim", {}), ("gen_percolation", dict(p=0.8))]
-    n_d = 128 if ctx.quick else 1600
+    n_d = 256 if ctx.quick else 1600
     for j in range(n_d):
         if not ctx.mine(j):
             continue
